@@ -171,6 +171,31 @@ fn decide(case: &Case, info: &mut CaseInfo) -> Verdict {
     Verdict::Pass
 }
 
+/// Performs one authentication against the mock and returns the decoded `serverId` parameter of the request
+/// (used by C11 for the hash "used towards the session service").
+pub fn observed_server_id(server_id: &str, secret: &[u8], key: &[u8]) -> Option<String> {
+    let m = mock();
+    let before = {
+        let mut s = m.state.lock().unwrap();
+        s.next = Some(Reply { status: 204, body: vec![], content_type: "application/json" });
+        s.heads.len()
+    };
+    let adapter = MojangAdapter::default().with_server_id(server_id.to_string());
+    let client: std::net::SocketAddr = "192.0.2.1:5555".parse().unwrap();
+    let id = uuid::Uuid::from_u128(11);
+    let _ = mocks::rt().block_on(async { tokio::time::timeout(std::time::Duration::from_secs(20), adapter.authenticate(&client, ("h", 25565), 770, ("HashProbe", &id), secret, key)).await });
+    let heads: Vec<Vec<u8>> = m.state.lock().unwrap().heads[before..].to_vec();
+    let head = String::from_utf8_lossy(heads.first()?).into_owned();
+    let target = head.lines().next()?.split(' ').nth(1)?.to_string();
+    let query = target.split_once('?')?.1.to_string();
+    for pair in query.split('&') {
+        if let Some(v) = pair.strip_prefix("serverId=") {
+            return form_decode(v).and_then(|b| String::from_utf8(b).ok());
+        }
+    }
+    None
+}
+
 impl Check for C12 {
     type Case = Case;
     fn id(&self) -> &'static str {
